@@ -14,6 +14,18 @@ Every query tree of the stated families is built, and for each rewrite R in
 the real code is run and  docs(R(q)) == docs(q)  is demanded on the same
 searcher (estimate_size: >= |docs(q)|; every rewrite: no exception).
 
+Near-duplicate families (corpus P, see p_docs): normalize() drops "duplicate"
+clauses and merges "overlapping" ones, and what counts as a duplicate is
+decided by the __eq__/__hash__ of the query classes.  For every public query
+class the instances are the full product of two values per match-relevant
+constructor parameter; every ordered pair of instances that differ in exactly
+one parameter (and every instance with itself) is put under every operator
+(pair_trees) and through every rewrite.  P is an all-document-contents corpus
+over a vocabulary in which each of these parameters changes the matched
+documents (edit distances 0/1/2, common prefixes, morphological variations,
+numeric and datetime values); a vacuity guard checks that per class and
+parameter.  The FuzzyTermPlugin spellings go through the parser the same way.
+
 Oracle = the original query executed on the same index (differential).  The
 only leniency: the documentation of normalize() says it "removes ... empty
 queries" (its example drops an Or([]) out of an And), while NullQuery is
@@ -103,6 +115,109 @@ def build_v(which, seed=0):
 
 
 # ---------------------------------------------------------------------------
+# corpus P ("parameter corpus") for the near-duplicate families
+#
+# V's one-letter vocabulary cannot tell FuzzyTerm(maxdist=1) from
+# FuzzyTerm(maxdist=2), Variations from Term, or two numeric ranges apart.  P is
+# again an all-document-contents corpus, over a vocabulary in which EVERY
+# match-relevant constructor parameter of every public query class changes the
+# matched documents (run() verifies that, per class and parameter):
+#   f: every sequence of <=2 words over W5 and every sequence of 3 words over
+#      {x, y, xv} (phrase slop / span distance need another word in between);
+#   g: absent or one of the words x, y, xv
+#   n x m: every pair of (absent, 0..4) x (absent, 2, 3); d: absent or one of 5
+#      instants.  Text and typed fields are never combined in one document: the
+#      clauses of a near-duplicate pair mention one field (two when the field
+#      name is the parameter that differs: f/g, n/m).
+# Every instance of the families below selects at least one term of its field
+# on P (no void range, no pattern without expansion): what happens to clauses
+# that are EMPTY is the business of the V families (and of a known finding).
+
+def p_words(seed):
+    """(x, y, xv, xv2, yv): y at edit distance 1 from x without a common prefix;
+    xv a morphological variation of x at distance 1 sharing 3 letters; xv2 at
+    distance 2 sharing 3 letters; yv a variation of y at distance 2 from x."""
+    return [("bent", "lent", "bend", "bendy", "lend"),
+            ("lent", "bent", "lend", "lendy", "bend")][seed % 2]
+
+
+P_DATES = ["2001-02-03T04:05:06.000000", "2001-02-03T04:05:07.000000", "2003-01-01T00:00:00.000000",
+           "2003-01-01T00:00:00.000001", "2010-12-31T23:59:59.999999"]
+
+
+def p_docs(seed=0):
+    x, y, xv, xv2, yv = p_words(seed)
+    W5 = [x, y, xv, xv2, yv]
+    fs = [[]] + [[a] for a in W5] + [[a, b] for a in W5 for b in W5]
+    fs += [list(p) for p in itertools.product([x, y, xv], repeat=3)]
+    docs = []
+    for f in fs:
+        for g in ([], [x], [y], [xv]):
+            docs.append({"f": f, "g": g})
+    for n in (None, 0, 1, 2, 3, 4):
+        for m in (None, 2, 3):
+            if n is not None or m is not None:
+                docs.append({"f": [], "g": [], "n": n, "m": m})
+    for d in P_DATES:
+        docs.append({"f": [], "g": [], "d": d})
+    r = (seed * 29) % len(docs)
+    docs = docs[r:] + docs[:r]
+    dup = dict(docs[(17 + seed) % len(docs)])
+    dup_at = 7
+    docs.insert(dup_at, dup)
+    for i, d in enumerate(docs):
+        d["key"] = "k%d" % i
+        d["live"] = True
+    return docs, dup_at
+
+
+def p_schema():
+    from whoosh import fields, analysis
+    return fields.Schema(
+        key=fields.ID(stored=True, unique=True),
+        f=fields.TEXT(analyzer=analysis.SpaceSeparatedTokenizer(), phrase=True),
+        g=fields.TEXT(analyzer=analysis.SpaceSeparatedTokenizer(), phrase=True),
+        n=fields.NUMERIC(int), m=fields.NUMERIC(int), d=fields.DATETIME())
+
+
+def p_to_doc(d, order=None):
+    out = {"key": d["key"]}
+    for f in ("f", "g"):
+        if d.get(f):
+            out[f] = " ".join(d[f])
+    for f in ("n", "m"):
+        if d.get(f) is not None:
+            out[f] = d[f]
+    if d.get("d") is not None:
+        out["d"] = _pdt(d["d"])
+    return out
+
+
+def _pdt(s):
+    import datetime
+    return None if s is None else datetime.datetime.strptime(s, "%Y-%m-%dT%H:%M:%S.%f")
+
+
+def build_p(which, seed=0):
+    docs, dup_at = p_docs(seed)
+    if which == "par1":
+        layout = {"segs": [len(docs)], "deleted": [dup_at], "optimize": True}
+    else:
+        n1 = len(docs) // 2 + (seed % 5)
+        layout = {"segs": [n1, len(docs) - n1], "deleted": [dup_at]}
+    ix, docs = corpus.build_index(docs, layout, schema=p_schema(), to_doc=p_to_doc)
+    return ix, docs
+
+
+def describe_doc(d):
+    t = "%s|%s" % (" ".join(d["f"]) or "-", " ".join(d["g"]) or "-")
+    for f in ("n", "m", "d"):
+        if d.get(f) is not None:
+            t += "|%s=%s" % (f, d[f])
+    return t
+
+
+# ---------------------------------------------------------------------------
 # ASTs (JSON-able) -> whoosh queries
 #
 #  ["term", f, text, boost]  ["every", boost]  ["everyf", f, boost]  ["null"]
@@ -112,6 +227,9 @@ def build_v(which, seed=0):
 #  ["and"|"or"|"dismax", [kids], boost]   ["seq"|"ord", [kids], slop, boost]
 #  ["not", kid]  ["const", kid, score]
 #  ["andnot"|"andmaybe"|"require"|"otherwise", a, b]
+#  ["x", kind, wx, wy, wz]  fixed instances of the remaining public types
+#  ["p", cls, [values]]     parametrised instance of a public type (PNAMES[cls]
+#                           names the values; sub-queries are ASTs); opaque leaf
 
 def build(ast):
     from whoosh import query as Q
@@ -134,6 +252,8 @@ def build(ast):
         return Q.Phrase(ast[1], list(ast[2]), slop=ast[3], boost=ast[4])
     if k == "x":
         return build_extra(ast)
+    if k == "p":
+        return build_param(ast)
     if k == "and":
         return Q.And([build(x) for x in ast[1]], boost=ast[2])
     if k == "or":
@@ -205,6 +325,69 @@ def build_extra(ast):
     raise ValueError(kind)
 
 
+# parameter names of the parametrised leaves, in the order of their values
+PNAMES = {
+    "fuzzy": ("fieldname", "text", "boost", "maxdist", "prefixlength"),
+    "variations": ("fieldname", "text", "boost"),
+    "regex": ("fieldname", "text", "boost"),
+    "nrange": ("fieldname", "start", "end", "startexcl", "endexcl", "boost"),
+    "drange": ("fieldname", "start", "end", "startexcl", "endexcl", "boost"),
+    "sequence": ("subqueries", "slop", "ordered", "boost"),
+    "spannear": ("a", "b", "slop", "ordered", "mindist"),
+    "spannear2": ("qs", "slop", "ordered", "mindist"),
+    "spanfirst": ("q", "limit"),
+    "spanor": ("subqs",),
+    "spannot": ("a", "b"), "spancontains": ("a", "b"), "spanbefore": ("a", "b"),
+    "spancondition": ("a", "b"),
+    "nestedparent": ("parents", "subq"),
+    "nestedchildren": ("parents", "subq"),
+    "weighting": ("child",),
+}
+
+
+def build_param(ast):
+    """["p", cls, values]: one instance of a public query class with the
+    constructor parameters PNAMES[cls]."""
+    from whoosh import query as Q, scoring
+    _, cls, v = ast
+    b = build
+    if cls == "fuzzy":
+        return Q.FuzzyTerm(v[0], v[1], boost=v[2], maxdist=v[3], prefixlength=v[4])
+    if cls == "variations":
+        return Q.Variations(v[0], v[1], boost=v[2])
+    if cls == "regex":
+        return Q.Regex(v[0], v[1], boost=v[2])
+    if cls == "nrange":
+        return Q.NumericRange(v[0], v[1], v[2], v[3], v[4], boost=v[5])
+    if cls == "drange":
+        return Q.DateRange(v[0], _pdt(v[1]), _pdt(v[2]), v[3], v[4], boost=v[5])
+    if cls == "sequence":
+        return Q.Sequence([b(x) for x in v[0]], slop=v[1], ordered=v[2], boost=v[3])
+    if cls == "spannear":
+        return Q.SpanNear(b(v[0]), b(v[1]), slop=v[2], ordered=v[3], mindist=v[4])
+    if cls == "spannear2":
+        return Q.SpanNear2([b(x) for x in v[0]], slop=v[1], ordered=v[2], mindist=v[3])
+    if cls == "spanfirst":
+        return Q.SpanFirst(b(v[0]), limit=v[1])
+    if cls == "spanor":
+        return Q.SpanOr([b(x) for x in v[0]])
+    if cls == "spannot":
+        return Q.SpanNot(b(v[0]), b(v[1]))
+    if cls == "spancontains":
+        return Q.SpanContains(b(v[0]), b(v[1]))
+    if cls == "spanbefore":
+        return Q.SpanBefore(b(v[0]), b(v[1]))
+    if cls == "spancondition":
+        return Q.SpanCondition(b(v[0]), b(v[1]))
+    if cls == "nestedparent":
+        return Q.NestedParent(b(v[0]), b(v[1]))
+    if cls == "nestedchildren":
+        return Q.NestedChildren(b(v[0]), b(v[1]))
+    if cls == "weighting":
+        return Q.WeightingQuery(b(v[0]), scoring.Frequency())
+    raise ValueError(cls)
+
+
 def from_whoosh(q):
     """Inverse of build() for the classes the query parser produces."""
     from whoosh import query as Q
@@ -212,6 +395,10 @@ def from_whoosh(q):
     t = type(q)
     if isinstance(q, qcore._NullQuery):
         return ["null"]
+    if t is Q.Sequence and q.ordered is not True:
+        return ["p", "sequence", [[from_whoosh(x) for x in q.subqueries], q.slop, q.ordered, q.boost]]
+    if t is Q.FuzzyTerm and q.constantscore is True:
+        return ["p", "fuzzy", [q.fieldname, q.text, q.boost, q.maxdist, q.prefixlength]]
     if t is Q.Term:
         return ["term", q.fieldname, q.text, q.boost]
     if t is Q.Every:
@@ -292,6 +479,13 @@ def leaf_kind(ast):
         return ("prefix" if ast[2] else "prefix:empty") + _b(ast[3])
     if k == "null":
         return k
+    if k == "p":
+        # grouped by base class so that one missing method is one signature
+        if ast[1].startswith("span"):
+            return "p:span"
+        if ast[1] in ("nestedparent", "nestedchildren", "weighting"):
+            return "p:wrapping"
+        return "p:" + ast[1]
     if k == "x":
         # grouped by base class so that one missing method is one signature
         if ast[1].startswith("span"):
@@ -302,20 +496,41 @@ def leaf_kind(ast):
     return k + _b(ast[-1])
 
 
-def shape(ast):
+def shape(ast, coarse=False):
     """Operator skeleton, leaves reduced to their kind; children of the
-    commutative operators sorted so that and(every,term)==and(term,every)."""
+    commutative operators sorted so that and(every,term)==and(term,every).
+    coarse (signatures of exceptions, which already name the exception class
+    and the whoosh function): every parametrised leaf is 'p:*'."""
     k = ast[0]
     if k in ("and", "or", "dismax"):
-        return "%s%s(%s)" % (k, _b(ast[2]), ",".join(sorted(shape(x) for x in ast[1])))
+        return "%s%s(%s%s)" % (k, _b(ast[2]), ",".join(sorted(shape(x, coarse) for x in ast[1])),
+                               "" if coarse else _delta(ast[1]))
     if k in ("seq", "ord"):
-        return "%s%s%s(%s)" % (k, "~" if ast[2] != 1 else "", _b(ast[3]),
-                               ",".join(shape(x) for x in ast[1]))
+        return "%s%s%s(%s%s)" % (k, "~" if ast[2] != 1 else "", _b(ast[3]),
+                                 ",".join(shape(x, coarse) for x in ast[1]),
+                                 "" if coarse else _delta(ast[1]))
     if k in UNARY:
-        return "%s(%s)" % (k, shape(ast[1]))
+        return "%s(%s)" % (k, shape(ast[1], coarse))
     if k in BINOPS:
-        return "%s(%s,%s)" % (k, shape(ast[1]), shape(ast[2]))
+        return "%s(%s,%s%s)" % (k, shape(ast[1], coarse), shape(ast[2], coarse),
+                                "" if coarse else _delta(ast[1:3]))
+    if coarse and k == "p":
+        return "p:*"
     return leaf_kind(ast)
+
+
+def _delta(kids):
+    """';differ:<parameters>' when two clauses are parametrised leaves of the
+    same class: which constructor parameters tell the first such pair apart
+    (so that conflating maxdist and conflating prefixlength are two signatures)."""
+    ps = [c for c in kids if c[0] == "p" or (c[0] == "not" and c[1][0] == "p")]
+    ps = [c[1] if c[0] == "not" else c for c in ps]
+    for i, a in enumerate(ps):
+        for b in ps[i + 1:]:
+            if a[1] == b[1]:
+                names = [n for n, va, vb in zip(PNAMES[a[1]], a[2], b[2]) if va != vb]
+                return ";differ:%s" % ("+".join(names) or "nothing")
+    return ""
 
 
 # ---------------------------------------------------------------------------
@@ -369,7 +584,8 @@ class Env(object):
     def __init__(self, which, seed=0):
         self.which = which
         self.seed = seed
-        self.ix, self.docs = build_v(which, seed)
+        self.par = which.startswith("par")
+        self.ix, self.docs = (build_p if self.par else build_v)(which, seed)
         self.s = self.ix.searcher()
         self.reader = self.s.reader()
         # bulk path: docs_for_query; search(limit=None) cross-checks every discrepancy
@@ -384,7 +600,7 @@ class Env(object):
         for dn in range(self.reader.doc_count_all()):
             key = self.reader.stored_fields(dn)["key"]
             d = self.docs[int(key[1:])]
-            t = "%s|%s" % (" ".join(d["f"]) or "-", " ".join(d["g"]) or "-")
+            t = describe_doc(d)
             if self.reader.is_deleted(dn):
                 t = "<deleted:%s>" % t
             self.desc[dn] = t
@@ -432,6 +648,24 @@ class Env(object):
 
     def show(self, ds):
         return sorted(self.desc.get(d, "<docnum:%r>" % d) for d in ds)
+
+    def simple_terms(self):
+        """plain terms of this corpus (used to simplify failing trees)"""
+        x, y = (p_words(self.seed)[:2] if self.par else vocab(self.seed))
+        return [["term", "f", x, 1.0], ["term", "f", y, 1.0],
+                ["term", "g", x if self.par else "a", 1.0]]
+
+    def parser(self):
+        """The query parser of the 'parser' rewrite: the default parser on V;
+        on P additionally the FuzzyTermPlugin (word~, word~2, word~1/2)."""
+        qp = getattr(self, "_parser", None)
+        if qp is None:
+            from whoosh import qparser
+            qp = qparser.QueryParser("f", self.ix.schema)
+            if self.par:
+                qp.add_plugin(qparser.FuzzyTermPlugin())
+            self._parser = qp
+        return qp
 
 
 def ident_apply(q):
@@ -492,8 +726,7 @@ def rewrite(name, ast, env, text=None, keep=None):
         q, used = op_build(ast)
         return q if used else None
     if name == "parser":
-        from whoosh.qparser import QueryParser
-        return QueryParser("f", env.ix.schema).parse(text, normalize=True)
+        return env.parser().parse(text, normalize=True)
     q = build(ast)
     if keep is not None:
         keep.append(q)
@@ -666,7 +899,7 @@ def check(ast, name, env, text=None):
     extra = got[1] - orig[1]
     missing = orig[1] - got[1]
     kind = "both" if extra and missing else ("extra" if extra else "missing")
-    detail = "%s turns %r into %r: extra %s missing %s (documents shown as f|g)" % (
+    detail = "%s turns %r into %r: extra %s missing %s (documents shown as f|g[|n=|m=|d=])" % (
         name, q, rq, env.show(extra)[:6], env.show(missing)[:6])
     return kind, detail, info
 
@@ -715,8 +948,7 @@ def generalise(cur, name, env, kind):
             return False
         return same_class(k, kind)
 
-    x, y = vocab(env.seed)
-    simple = [["term", "f", x, 1.0], ["term", "f", y, 1.0], ["term", "g", "a", 1.0]]
+    simple = env.simple_terms()
     budget = [80]
 
     def attempt(cand):
@@ -742,10 +974,12 @@ def generalise(cur, name, env, kind):
 
     def child_cands(c):
         out = list(children(c))
-        if not children(c) and c[0] not in ("null", "x") and c[-1] != 1.0:
+        if not children(c) and c[0] not in ("null", "x", "p") and c[-1] != 1.0:
             out.append(list(c[:-1]) + [1.0])
         try:
-            nf = from_whoosh(build(c).normalize())
+            # (a parametrised leaf stays what it is: its class and parameters
+            # are what the signature names)
+            nf = from_whoosh(build(c).normalize()) if c[0] != "p" else c
             if nf != c and json.dumps(nf) != json.dumps(c):
                 out.append(nf)
         except Exception:
@@ -872,7 +1106,7 @@ def eval_case(ast, envs, acc, seed, sigcache, names=REWRITES, text=None):
             case = {"seed": seed, "index": env.which, "ast": cu, "rewrite": name, "found_in": ast}
             if text is not None:
                 case["found_in_text"] = text
-            acc.violation("%s|%s|%s" % (shape(cu), name, ck), case, cdetail)
+            acc.violation("%s|%s|%s" % (shape(cu, coarse=str(ck).startswith("exc:")), name, ck), case, cdetail)
     return nontrivial
 
 
@@ -995,6 +1229,9 @@ def gen(family, seed=0):
                 for b in small:
                     yield [op, a, b]
                     yield [op, b, a]
+    elif family == "neardup":
+        for t in gen_neardup(seed):
+            yield t
     elif family in ("d2_small", "d2_mid"):
         L = small if family == "d2_small" else mid
         for t in depth2(L):
@@ -1052,6 +1289,176 @@ def depth2(L, ops=None):
                 yield [op, c, i]
 
 
+# near-duplicate families (corpus P)
+#
+# normalize() drops "duplicate" clauses and merges "overlapping" ones; whether
+# two clauses are duplicates is decided by the __eq__/__hash__ of the query
+# classes.  So for EVERY public query class every pair of instances that differ
+# in exactly ONE match-relevant constructor parameter (and every pair of equal
+# instances) is put side by side under every operator.
+
+def pspec(seed):
+    """[(class name, [(parameter, domain)...], mk(values) -> AST)] - the
+    instances of a class are the full product of the domains."""
+    x, y, xv, xv2, yv = p_words(seed)
+    srt = sorted([x, y, xv, xv2, yv])
+
+    def T(w, f="f"):
+        return ["term", f, w, 1.0]
+    tx, ty, tz = T(x), T(y), T(xv)
+    FG = ("fieldname", ["f", "g"])
+    B1 = ("boost", [1.0])
+
+    def P(cls):
+        return lambda v: ["p", cls, list(v)]
+
+    def near(a, b):
+        return ["p", "spannear", [a, b, 2, True, 1]]
+    AB = [("a", [tx, tz]), ("b", [ty, tz])]
+    spec = [
+        ("term", [FG, ("text", [x, y])], lambda v: ["term", v[0], v[1], 1.0]),
+        ("prefix", [FG, ("text", [x[:2], xv])], lambda v: ["prefix", v[0], v[1], 1.0]),
+        ("wild", [FG, ("text", ["?" + x[1:], x[:3] + "?"])], lambda v: ["wild", v[0], v[1], 1.0]),
+        ("regex", [FG, ("text", ["[%s%s]%s" % (x[0], y[0], x[1:]), x[:3] + "."]), B1], P("regex")),
+        ("fuzzy", [FG, ("text", [x, y]), B1, ("maxdist", [1, 2]), ("prefixlength", [0, 2])], P("fuzzy")),
+        ("variations", [FG, ("text", [x, y]), B1], P("variations")),
+        ("trange", [FG, ("start", [srt[0], srt[1]]), ("end", [srt[3], srt[4]]),
+                    ("startexcl", [False, True]), ("endexcl", [False, True])],
+         lambda v: ["trange", v[0], v[1], v[2], v[3], v[4], 1.0]),
+        ("nrange", [("fieldname", ["n", "m"]), ("start", [0, 1]), ("end", [3, 4]),
+                    ("startexcl", [False, True]), ("endexcl", [False, True]), B1], P("nrange")),
+        ("drange", [("fieldname", ["d"]), ("start", [P_DATES[0], P_DATES[1]]),
+                    ("end", [P_DATES[3], P_DATES[4]]), ("startexcl", [False, True]),
+                    ("endexcl", [False, True]), B1], P("drange")),
+        ("phrase", [FG, ("words", [[x, y], [y, x]]), ("slop", [1, 2])],
+         lambda v: ["phrase", v[0], list(v[1]), v[2], 1.0]),
+        ("every", [("fieldname", ["f", "g", None])],
+         lambda v: ["every", 1.0] if v[0] is None else ["everyf", v[0], 1.0]),
+        ("sequence", [("subqueries", [[tx, ty], [ty, tx]]), ("slop", [1, 2]), ("ordered", [True, False]), B1],
+         P("sequence")),
+        ("ordered", [("subqueries", [[tx, ty], [ty, tx]]), ("slop", [1, 2])],
+         lambda v: ["ord", list(v[0]), v[1], 1.0]),
+        ("spannear", AB + [("slop", [1, 2]), ("ordered", [True, False]), ("mindist", [1, 2])], P("spannear")),
+        ("spannear2", [("qs", [[tx, ty], [ty, tx]]), ("slop", [1, 2]), ("ordered", [True, False]),
+                       ("mindist", [1, 2])], P("spannear2")),
+        ("spanfirst", [("q", [tx, ty]), ("limit", [0, 1])], P("spanfirst")),
+        ("spanor", [("subqs", [[tx, ty], [tx, tz]])], P("spanor")),
+        ("spannot", [("a", [near(tx, ty), near(ty, tx)]), ("b", [tz, ty])], P("spannot")),
+        ("spancontains", [("a", [near(tx, ty), near(ty, tx)]), ("b", [tz, ty])], P("spancontains")),
+        ("spanbefore", AB, P("spanbefore")),
+        ("spancondition", AB, P("spancondition")),
+        # NestedParent / NestedChildren are left to the 'extras' family: their
+        # meaning is only documented on indexes written with parent/child groups
+        ("weighting", [("child", [tx, ty])], P("weighting")),
+        ("not", [("query", [tx, ty])], lambda v: ["not", v[0]]),
+        ("const", [("child", [tx, ty])], lambda v: ["const", v[0], 1.5]),
+    ]
+    for op in BINOPS:
+        spec.append((op, AB, (lambda o: lambda v: [o, v[0], v[1]])(op)))
+    for op in ("and", "or", "dismax"):
+        spec.append((op, [("subqueries", [[tx, ty], [tx, tz]])], (lambda o: lambda v: [o, list(v[0]), 1.0])(op)))
+    return spec
+
+
+# parameters that are documented not to influence which documents match
+# (AndMaybe's optional side, Otherwise's fallback only when the first query is
+# empty on the index, Ordered ignores slop)
+NOT_MATCH_RELEVANT = ("andmaybe.b", "otherwise.b", "ordered.slop")
+
+
+def near_pairs(seed):
+    """(class, differing parameter or None, q, q2): every ordered pair of
+    instances of one class that differ in exactly one parameter, and every
+    instance paired with itself."""
+    for cls, params, mk in pspec(seed):
+        doms = [d for _, d in params]
+        insts = list(itertools.product(*[range(len(d)) for d in doms]))
+
+        def ast_of(ix):
+            return mk([doms[i][j] for i, j in enumerate(ix)])
+        for a in insts:
+            yield cls, None, ast_of(a), ast_of(a)
+        for a in insts:
+            for b in insts:
+                diff = [i for i in range(len(a)) if a[i] != b[i]]
+                if len(diff) == 1:
+                    yield cls, params[diff[0]][0], ast_of(a), ast_of(b)
+
+
+def pair_trees(q, q2, t):
+    """The two clauses under every operator: side by side, with an unrelated
+    clause between them, spread over nested same-type compounds (flattened by
+    normalize(), also with boosts), one of them negated, and as the operands
+    of the binary operators."""
+    for op in ("and", "or", "dismax"):
+        yield nary(op, [q, q2])
+    for op in ("and", "or", "dismax"):
+        yield nary(op, [q, t, q2])
+    for op in ("and", "or", "dismax"):
+        yield nary(op, [nary(op, [q, t]), q2])
+        yield nary(op, [q, nary(op, [t, q2])])
+        yield nary(op, [nary(op, [q, t], boost=2.0), q2], boost=0.5)
+    yield nary("and", [q, ["not", q2]])
+    yield nary("or", [q, ["not", q2]])
+    for op in BINOPS:
+        yield [op, q, q2]
+    yield nary("seq", [q, q2])
+    yield nary("ord", [q, q2])
+
+
+def gen_neardup(seed):
+    t = ["term", "g", p_words(seed)[0], 1.0]
+    for cls, pname, q, q2 in near_pairs(seed):
+        for tree in pair_trees(q, q2, t):
+            yield tree
+
+
+def parser_par_texts(tier, seed=0):
+    """Well-formed query strings whose clauses are near-duplicates: the
+    spellings of a fuzzy term (FuzzyTermPlugin: word~ word~2 word~1/2
+    word~2/2) next to the plain word, a prefix and a phrase."""
+    x, y, xv, xv2, yv = p_words(seed)
+    T = [x + "~", x + "~2", x + "~1/2", x + "~2/2", y + "~", x, x[:2] + "*", "g:" + x + "~",
+         '"%s %s"' % (x, y)]
+    OPS = ["", "AND", "OR", "ANDNOT", "ANDMAYBE", "REQUIRE", "AND NOT", "OR NOT"]
+    T3 = T[:4] if tier == "thorough" else T[:2]
+
+    def j(*p):
+        return " ".join(s for s in p if s)
+    for t in T:
+        yield t
+    for t in T:
+        yield "NOT " + t
+    for a in T:
+        for op in OPS:
+            for b in T:
+                yield j(a, op, b)
+    for a in T3:
+        for o1 in OPS:
+            for b in T3:
+                for o2 in OPS:
+                    for c in T3:
+                        yield j(a, o1, b, o2, c)
+                        yield j("(" + j(a, o1, b) + ")", o2, c)
+                        yield j(a, o1, "(" + j(b, o2, c) + ")")
+
+
+def task_guard(env, seed, acc):
+    """Vacuity guard of the near-duplicate families: for every class and
+    parameter, in how many pairs the parameter changes the matched documents
+    on P (run() demands at least one)."""
+    for cls, pname, q, q2 in near_pairs(seed):
+        if pname is None:
+            continue
+        a, b = env.run(build(q)), env.run(build(q2))
+        key = "%s.%s" % (cls, pname)
+        acc.count("neardup_pairs")
+        acc.count("neardup_pairs:" + key)
+        if a[0] == "ok" and b[0] == "ok" and a[1] != b[1]:
+            acc.count("neardup_distinguished")
+            acc.count("neardup_distinguished:" + key)
+
+
 # parser family: well-formed expressions of the default query language
 
 def parser_texts(tier, seed=0):
@@ -1089,10 +1496,12 @@ def task(t):
     envs = [Env(w, seed) for w in which]
     sigcache = {}
     try:
-        if family == "parser":
-            from whoosh.qparser import QueryParser
-            qp = QueryParser("f", envs[0].ix.schema)
-            for i, text in enumerate(parser_texts(tier, seed)):
+        if family == "neardup_guard":
+            task_guard(envs[0], seed, acc)
+        elif family in ("parser", "parser_par"):
+            qp = envs[0].parser()
+            texts = parser_texts if family == "parser" else parser_par_texts
+            for i, text in enumerate(texts(tier, seed)):
                 if i < start:
                     continue
                 if i >= stop:
@@ -1132,11 +1541,15 @@ def plan(tier, seed=0):
     """(family, chunk size, index realisations).  Quick: both realisations of
     V for everything up to depth 1, one (rotated by seed) for the rest."""
     both = ("one", "two")
+    pboth = ("par1", "par2")
     if tier == "quick":
         single = (both[seed % 2],)
+        psingle = (pboth[seed % 2],)
         return [("d0", 40, both), ("d1", 500, both), ("d1_boost", 500, both), ("extras", 500, both),
+                ("neardup_guard", 1, psingle), ("neardup", 600, psingle), ("parser_par", 1200, psingle),
                 ("d1_three", 800, single), ("d2_small", 800, single), ("parser", 1200, single)]
     return [("d0", 40, both), ("d1", 500, both), ("d1_boost", 500, both), ("extras", 500, both),
+            ("neardup_guard", 1, ("par1",)), ("neardup", 500, pboth), ("parser_par", 800, pboth),
             ("d1_three", 500, both), ("d2_small", 500, both), ("d2_mid", 500, both),
             ("d3_tiny", 500, both), ("parser", 800, both)]
 
@@ -1148,9 +1561,14 @@ def run(ctx):
     for family, chunk, which in plan(ctx.tier, seed):
         if family == "parser":
             n = sum(1 for _ in parser_texts(ctx.tier, seed))
+        elif family == "parser_par":
+            n = sum(1 for _ in parser_par_texts(ctx.tier, seed))
+        elif family == "neardup_guard":
+            n = 1
         else:
             n = sum(1 for _ in gen(family, seed))
-        sizes[family] = n
+        if family != "neardup_guard":
+            sizes[family] = n
         for start in range(0, n, chunk):
             tasks.append((family, start, min(n, start + chunk), seed, ctx.tier, which))
     docs, _ = v_docs(seed)
@@ -1159,6 +1577,10 @@ def run(ctx):
     ctx.extra["index_variants"] = 2
     ctx.extra["plan"] = [[f, list(w)] for f, _, w in plan(ctx.tier, seed)]
     ctx.extra["rewrites"] = list(REWRITES) + ["parser"]
+    pd, _ = p_docs(seed)
+    ctx.extra["P_live_documents"] = len(pd) - 1
+    ctx.extra["P_vocabulary"] = list(p_words(seed))
+    ctx.extra["neardup_classes"] = dict((cls, [[n, len(d)] for n, d in params]) for cls, params, _ in pspec(seed))
     ctx.rule = ("every query tree of the families %s: d0 = 40 leaves (Term in two fields, Every()/Every(f), "
                 "NullQuery, empty And/Or, Prefix, Wildcard incl. '*', 'x*', literal, '?', '[ab]', 13 TermRanges "
                 "overlapping/touching/nested/open/point/void/inverted, Phrase of 0-2 words, duplicates, boosts "
@@ -1167,8 +1589,24 @@ def run(ctx):
                 "/ slop-2 compounds; d1_three = 3 children; d2_* / d3_tiny = depth 2 / 3 over reduced leaf sets "
                 "incl. same-type nesting with boosts; extras = the remaining public query types (Regex, FuzzyTerm, "
                 "Variations, Span*, Nested*, WeightingQuery) as leaves under one operator; parser = every "
-                "well-formed query-language string of <=3 clauses x 8 connectives x bracketings.  Each tree x "
-                "the index realisations of V named in 'plan' (1 segment; 2 segments + deleted duplicate) x "
+                "well-formed query-language string of <=3 clauses x 8 connectives x bracketings.  "
+                "neardup (on the parameter corpus P: f = every sequence of <=2 words over 5 words at edit "
+                "distance 0/1/2 with and without a common prefix and with morphological variations, and every "
+                "3-word sequence over 3 of them; g absent or one of 3 words; numeric n x m; datetime d) = for "
+                "every public query class (Term, Prefix, Wildcard, Regex, FuzzyTerm, Variations, TermRange, "
+                "NumericRange, DateRange, Phrase, Every, Sequence, Ordered, SpanNear, SpanNear2, SpanFirst, "
+                "SpanOr, SpanNot, SpanContains, SpanBefore, SpanCondition, WeightingQuery, Not, "
+                "ConstantScoreQuery, AndNot, AndMaybe, Require, Otherwise, And, Or, DisjunctionMax) the full "
+                "product of two values per match-relevant constructor parameter (field name, text, start, "
+                "end, startexcl, endexcl, words, slop, ordered, mindist, maxdist, prefixlength, limit, "
+                "sub-queries), every ORDERED pair of instances differing in exactly one parameter and every "
+                "instance paired with itself, the two clauses put under And / Or / DisjunctionMax (adjacent; "
+                "with an unrelated clause between; spread over nested same-type compounds, also boosted), "
+                "And/Or with the second negated, the four binary operators, Sequence and Ordered - 23 trees "
+                "per pair; parser_par = every query string of <=3 clauses over the FuzzyTermPlugin spellings "
+                "word~ word~2 word~1/2 word~2/2 next to the plain word, a prefix and a phrase, parsed with "
+                "the default parser + FuzzyTermPlugin on P.  Each tree x "
+                "the index realisations of V / P named in 'plan' (1 segment; 2 segments + deleted duplicate) x "
                 "every rewrite (the operators & | - are applied wherever a node is a two-child And/Or).  "
                 "Documents via docs_for_query, every discrepancy confirmed via search(limit=None).  A case "
                 "(query, index) is non-trivial when the original query matches neither no nor all live "
@@ -1179,12 +1617,28 @@ def run(ctx):
         "where a sub-query normalises to NullQuery under And/Not both documented readings (matches nothing / "
         "empty query that normalize() removes) are accepted",
         "a comparison is skipped when the original query cannot be executed or the two access paths disagree",
+        "P is complete for the near-duplicate families: both clauses of a pair mention one field (two when the "
+        "field name is the differing parameter) and P holds every combination of contents of f x g and of n x m; "
+        "run() checks that every match-relevant parameter of every class changes the matched documents on P",
+        "NestedParent/NestedChildren are not part of the near-duplicate family (documented only on indexes "
+        "written with parent/child groups); they stay opaque leaves of the 'extras' family",
     ]
     ctx.pmap(task, tasks)
     c = ctx.counters
     if c.get("rewrite_changed_structure", 0) < 1000 or c.get("changed:normalize", 0) < 100:
         raise core.HarnessError("vacuous: rewrites changed the query structure in only %d evaluations"
                                 % c.get("rewrite_changed_structure", 0))
+    # near-duplicate families: the corpus must tell the two clauses of a pair
+    # apart for every class and match-relevant parameter, and duplicate
+    # elimination must actually have engaged
+    for cls, params, _ in pspec(seed):
+        for pname, dom in params:
+            key = "%s.%s" % (cls, pname)
+            if len(dom) < 2 or key in NOT_MATCH_RELEVANT:
+                continue
+            if c.get("neardup_distinguished:" + key, 0) < 1:
+                raise core.HarnessError("vacuous: corpus P never distinguishes two %s queries that differ in %s "
+                                        "(%d pairs)" % (cls, pname, c.get("neardup_pairs:" + key, 0)))
     if c.get("original_not_executable", 0) * 2 > c.get("cases", 1):
         raise core.HarnessError("vacuous: %d of %d original queries could not be executed"
                                 % (c.get("original_not_executable", 0), c.get("cases", 0)))
